@@ -860,7 +860,7 @@ QDIMS = {  # (L, M, T, Q, Theta) of every mechanical quantity label
     'mass': (0, 1, 0, 0, 0), 'length': (1, 0, 0, 0, 0), 'time': (0, 0, 1, 0, 0), 'energy': (2, 1, -2, 0, 0),
     'velocity': (1, 0, -1, 0, 0), 'force': (1, 1, -2, 0, 0), 'torque': (2, 1, -2, 0, 0),
     'temperature': (0, 0, 0, 0, 1), 'pressure': (-1, 1, -2, 0, 0), 'dynamic viscosity': (-1, 1, -1, 0, 0),
-    'density': (-3, 1, 0, 0, 0), 'ang-mom': (2, 1, -1, 0, 0), 'ang-vel': (0, 0, -1, 0, 0),
+    'density': (-3, 1, 0, 0, 0), 'ang-mom': (2, 1, -1, 0, 0), 'ang-vel': (0, 0, -1, 0, 0), 'volume': (3, 0, 0, 0, 0),
 }
 ELECTRICAL = ('charge', 'dipole', 'electric field')
 LMT = [('m', 'cm', 'mm'), ('kg', 'g', 'mg'), ('s', 'ms', 'us')]
